@@ -9,7 +9,7 @@ def ns(k):
 
 
 def gen(ctx, family, form, n, n2, **kw):
-    c = dict(MaxN=7, Whats=ALLW, MaxExtra=0, Ops='{"vector"}', Ns=n, MaxAnom=1, Ns2=n2, NsPerm="{}",
+    c = dict(MaxN=7, Whats=ALLW, MaxExtra=0, MaxOver=1, Ops='{"vector"}', Ns=n, MaxAnom=1, Ns2=n2, NsPerm="{}",
              Family='"%s"' % family, Form='"%s"' % form)
     return ctx.behaviours("cert", "Gen_QuorumCert", "Gen_QuorumCert.cfg", constants=c, timeout=900, **kw)
 
@@ -21,12 +21,19 @@ def run(ctx):
     else:
         # 1. exhaustive: every signature vector over n <= 3/4 validators (slot empty or any of 3 kinds by any signer),
         #    built by any sequence of Add, and every single part at every claimed index
-        r = ctx.model_check("cert", "MC_QuorumCert", "MC_QuorumCert_vector.cfg", constants=dict(MaxN=ctx.pick(3, 4)),
-                            coverage=True, timeout=ctx.pick(600, 1800))
-        ctx.check_coverage(r, ["AddPart", "VerifyPart", "VerifyProof"], allow_zero=("AppendItem", "VerifyList"))
+        #    vectors of every width 0..n+1 (quick: n <= 3, 2 kinds of signed content; thorough: n <= 3 with 3 kinds and
+        #    widths 0..n+1, and n <= 4 with widths 0..n)
+        runs = ctx.pick([dict(MaxN=3, MaxOver=1, Whats='{"ok", "other"}')],
+                        [dict(MaxN=3, MaxOver=1), dict(MaxN=4, MaxOver=0)])
+        for cst in runs:
+            r = ctx.model_check("cert", "MC_QuorumCert", "MC_QuorumCert_vector.cfg", constants=cst,
+                                coverage=True, timeout=ctx.pick(600, 1800))
+            ctx.check_coverage(r, ["AddPart", "VerifyPart", "VerifyProof"], allow_zero=("AppendItem", "VerifyList"))
         ctx.exhaustive = True
         # 2. decision table: every subset of own-index signatures for n = 1..7 with <= 1 anomalous slot
-        #    (wrong index, non-validator, other decision, forged, unrecoverable), <= 2 for n <= 3/5; all parts; walks
+        #    (wrong index, non-validator, other decision, forged, unrecoverable), <= 2 for n <= 3/5; proofs of every
+        #    other width (0..n-1 slots with every subset of own-index signatures; n+1 slots with an empty, validator-signed
+        #    or stranger-signed extra slot); all parts; walks over every width
         table = gen(ctx, "table", "vector", ns(7), ns(ctx.pick(3, 5)))
         parts = gen(ctx, "walk", "part", ns(7), "{}")  # BFS over the single VerifyPart step
         walks = gen(ctx, "walk", "vector", ns(7), "{}", simulate="num=%d" % ctx.pick(300, 5000), depth=12, seed=ctx.seed)
@@ -49,7 +56,8 @@ def run(ctx):
     return ctx.finish(
         rule="a case = one signature vector for n validators (n=1..7): every subset of own-index signatures with anomalous "
              "slots (another validator's signature = wrong index, non-validator, signature of another decision, forged or "
-             "unrecoverable bytes): %d table cases (<=1 anomaly for every n, <=2 for n<=%d), %d single parts at every claimed "
+             "unrecoverable bytes), in a proof of any width 0..n+1 (serialized proofs narrower or wider than the validator "
+             "list included): %d table cases (<=1 anomaly for every n, <=2 for n<=%d), %d single parts at every claimed "
              "index (-1..n), %d random Add sequences; each run for the eth and the icon module; verdict predicted by TLC"
              % counts,
         assumptions=["signatures are symbolic in the spec (secp256k1/keccak/sha3 trusted)",
